@@ -108,6 +108,12 @@ package sourcewrap
 //@   ensures C20_error_passes_through: rec_waReportError_cnt == old(rec_waReportError_cnt) + 1 && rec_waReportError_arg0[old(rec_waReportError_cnt)] == w.WatchArgs
 //@        && rec_waReportError_arg2[old(rec_waReportError_cnt)] == e && err == rec_waReportError_res0[old(rec_waReportError_cnt)]
 
+//@ func sourcewrap.NewTransformingDecoder(dec, manglers) (r)
+//@   props C20
+//@   safety C16
+//@   ensures C20_decoder_is_wrapped: isType(r, "*sourcewrap.transformingDecoder") && as(pay(r), "*transformingDecoder").inner == dec
+//@        && as(pay(r), "*transformingDecoder").manglers == manglers
+
 //@ func sourcewrap.NewTransformingSource(src, manglers) (r)
 //@   props C20
 //@   safety C16
@@ -150,6 +156,7 @@ package sourcewrap
 //@ func sourcewrap.(*Blank).SetSource(b, ctx, s) (err)
 //@   props C20 C07
 //@   safety C16
+//@   flag record blankSetSource
 //@   requires b != nil
 //@   requires api_precondition_blank_is_watched: b.t != nil && b.wa != nil
 //@   modifies sourcewrap.Blank.inner@b, rec_sourceValue, rec_waBlockingReport, rec_watch
@@ -180,6 +187,7 @@ package sourcewrap
 //@ func sourcewrap.(*Blank).Done(b, ctx)
 //@   props C20
 //@   safety C16
+//@   flag record blankDone
 //@   requires b != nil
 //@   modifies rec_waDone
 //@   ensures C20_done_forwarded_only_while_owner: rec_waDone_cnt == old(rec_waDone_cnt) + b2i(!isWatcher(b.inner) && b.wa != nil)
